@@ -89,6 +89,29 @@ func histories(n int) [][]wop {
 	return out
 }
 
+// singleIDHistories: every history of 1..n successful writes on id "a" starting from an empty collection
+func singleIDHistories(n int) [][]wop {
+	var out [][]wop
+	var rec func(cur []wop, v int)
+	rec = func(cur []wop, v int) {
+		if len(cur) > 0 {
+			out = append(out, append([]wop{}, cur...))
+		}
+		if len(cur) == n {
+			return
+		}
+		if v == 0 {
+			rec(append(cur, wop{"add", "a", 1}), 1)
+			rec(append(cur, wop{"add", "a", 2}), 2)
+			return
+		}
+		rec(append(cur, wop{"update", "a", 3 - v}), 3-v)
+		rec(append(cur, wop{"delete", "a", 0}), 0)
+	}
+	rec(nil, 0)
+	return out
+}
+
 type ev struct {
 	kind     string
 	id       string
@@ -362,6 +385,33 @@ func main() {
 			h.Sched(name, q, -1, body(pred(p), hist, false, 0, func(k, m string) {
 				verifrt.Logf("FAIL %s %s ## %s", k, name, m)
 			}), hx.StdOracle)
+		}
+	}
+	// longer lossy histories on ONE id, subscribed before or after the first write: the merge window can
+	// then hold remove+add+remove (REPLACE followed by REMOVE) for an item the subscriber already holds,
+	// with a predicate that tells the held value from the intermediate one
+	for _, p := range []int{0b000010, 0b000100, 0b000110} {
+		for _, hist := range singleIDHistories(4) {
+			if len(hist) < 3 {
+				continue
+			}
+			readd := false
+			for i := 0; i+1 < len(hist); i++ {
+				if hist[i].Kind == "delete" && hist[i+1].Kind == "add" {
+					readd = true
+				}
+			}
+			for _, sub := range []int{0, 1} {
+				p, hist, sub := p, hist, sub
+				name := fmt.Sprintf("lossy1/%v/%v/sub=%d", pred(p), hist, sub)
+				q := -2
+				if readd && len(hist) == 4 {
+					q = -1
+				}
+				h.Sched(name, q, -1, body(pred(p), hist, false, sub, func(k, m string) {
+					verifrt.Logf("FAIL %s %s ## %s", k, name, m)
+				}), hx.StdOracle)
+			}
 		}
 	}
 	// last, so that it inherits whatever time the small scenarios above did not use
